@@ -90,12 +90,19 @@ def _replay_hist(args):
     d = L.diff_state(base, L.abstract(optic))
     if d:
         return {"step": 0, "clause": "state", "msg": "base lens: " + d}
+    seen_reset = False
     for i, call in enumerate(hist):
         try:
             optic = L.apply_call(optic, call["op"], call["a"])
         except Exception as ex:
             return {"step": i + 1, "clause": "raises", "op": call["op"],
                     "msg": "%s%r raised %s: %s" % (call["op"], call["a"], type(ex).__name__, ex)}
+        seen_reset = seen_reset or call["op"] == "reset"
+        if seen_reset:
+            d = helpers_current(optic)
+            if d:
+                return {"step": i + 1, "clause": "helpers_current", "op": call["op"],
+                        "msg": "after %s%r on an Optic that was reset(): %s" % (call["op"], call["a"], d)}
         exp = expected.get(i + 1)
         if exp is not None:
             d = L.diff_state(exp, L.abstract(optic))
@@ -103,6 +110,28 @@ def _replay_hist(args):
                 return {"step": i + 1, "clause": "state", "op": call["op"],
                         "msg": "after %s%r: %s" % (call["op"], call["a"], d)}
     return None
+
+
+def helpers_current(optic):
+    """After reset() the Optic's helper objects answer for the lens built since, exactly as fresh
+    helpers over the same prescription do (observed through the paraxial marginal ray)."""
+    import numpy as np
+    sg = optic.surface_group
+    if sg.num_surfaces < 3 or not optic.wavelengths.wavelengths or not any(s.is_stop for s in sg.surfaces):
+        return None
+    from optiland.paraxial import Paraxial
+    def obs(px):
+        try:
+            with np.errstate(all="ignore"):
+                ya, ua = px.marginal_ray()
+            return [float(v) for v in np.ravel(ya)] + [float(v) for v in np.ravel(ua)]
+        except Exception as ex:
+            return "%s: %s" % (type(ex).__name__, ex)
+    a, b = obs(optic.paraxial), obs(Paraxial(optic))
+    if isinstance(a, str) or isinstance(b, str):
+        return None if (isinstance(a, str) and isinstance(b, str)) else "optic.paraxial gives %r, a fresh Paraxial %r" % (a, b)
+    same = len(a) == len(b) and all((x == y) or (x != x and y != y) for x, y in zip(a, b))
+    return None if same else "optic.paraxial.marginal_ray() = %r, a fresh Paraxial over the same lens gives %r" % (a, b)
 
 
 def replay_many(ctx, jobs):
@@ -217,6 +246,20 @@ def main(ctx):
         jobs_ins = [j for j in jobs_ins if any(c["op"] in ("insert_surface", "remove_surface") for c in j[1])]
         ctx.extra["behaviours_with_insert_or_remove"] = ctx.extra.get("behaviours_with_insert_or_remove", 0) + len(jobs_ins)
         jobs += jobs_ins
+    # reset(): the Optic is as new; behaviours that reset and build again (from simulation: a reset
+    # returns to a state the exhaustive search has already seen)
+    ctx.model_check("MC_Lens", write_cfg(ctx, "reset.cfg", cfg_text(spec="Spec", base="Empty", depth=8 if quick else 9, maxsurf=3,
+                    radii="SmallRadii", thick="OneThick", media="Media2", conics="ZeroOnly", tilts="ZeroOnly", decs="ZeroOnly",
+                    coefs="ZeroOnly", kinds="StdOnly", maxwl=1, maxpk=0, props=False, extras="ResetOnly",
+                    extra="PROPERTY StructureRefined\n")), workers=16)
+    jobs_reset = gen_sim(ctx, "sim_reset", cfg_text(spec="Spec", base="Empty", depth=40, maxsurf=4, invs=False, props=False,
+                                                   extras="ResetOnly", maxpk=0),
+                         150 if quick else 1500, 14 if quick else 20, ctx.seed + 9)
+    jobs_reset = [j for j in jobs_reset if any(c["op"] == "reset" for c in j[1])]
+    if not jobs_reset:
+        raise T.MachineryError("no simulated behaviour contains a reset")
+    ctx.extra["behaviours_with_reset_replayed"] = len(jobs_reset)
+    jobs += jobs_reset
     nsim = 150 if quick else 3000
     simcfg = cfg_text(spec="Spec", base="Empty", depth=40, maxsurf=5, invs=False, props=False)
     jobs_sim = gen_sim(ctx, "sim", simcfg, nsim, 14 if quick else 22, ctx.seed + 1)
